@@ -1,7 +1,263 @@
-//! Interpreter of `lax.*` ops (lax builder histories, lax categorical operations, conversions).
+//! Interpreter of `lax.*`, `laxf.*` and `var.*` ops: lax builder calls, lax categorical operations,
+//! conversions, lax functors / optics and the `Var` interface.
+//! Stateful calls take the pre-state in `args.pre` (all fields of the lax diagram are public and
+//! are the abstract state) and log the post-state next to the returned value, also after a panic.
 use crate::codec::*;
+use crate::strict_ops::vec as sv;
+use crate::tables;
+use open_hypergraphs::array::vec::{VecArray, VecKind};
+use open_hypergraphs::category::*;
+use open_hypergraphs::lax;
+use open_hypergraphs::lax::functor::Functor as LaxFunctor;
+use open_hypergraphs::lax::{EdgeId, NodeId};
+use open_hypergraphs::strict::vec::FiniteFunction;
 use serde_json::{json, Value};
+use std::panic::{catch_unwind, AssertUnwindSafe};
 
-pub fn run(op: &str, _a: &Value) -> Value {
-    json!({"tag": "unknown_op", "op": op})
+fn nids(v: &Value) -> Vec<NodeId> {
+    vec_us(v).into_iter().map(NodeId).collect()
 }
+fn eids(v: &Value) -> Vec<EdgeId> {
+    vec_us(v).into_iter().map(EdgeId).collect()
+}
+fn ff(v: &Value) -> FiniteFunction {
+    sv::ff(v)
+}
+
+/// run a mutating call on the pre-state; the post-state is logged whatever happens
+fn stateful<F: FnOnce(&mut LaxOH) -> Value>(a: &Value, f: F) -> Value {
+    let mut st = lax_in(&a["pre"]);
+    let r = catch_unwind(AssertUnwindSafe(|| f(&mut st)));
+    match r {
+        Ok(mut v) => {
+            v["post"] = lax_out(&st);
+            v
+        }
+        Err(_) => {
+            let msg = crate::LAST_PANIC.with(|p| p.borrow_mut().take()).unwrap_or_else(|| "panic".into());
+            let msg: String = msg.chars().take(200).collect();
+            json!({"tag": "panic", "msg": msg, "post": lax_out(&st)})
+        }
+    }
+}
+
+#[derive(Clone)]
+pub struct LaxTableFunctor {
+    pub t: tables::FunctorTable,
+}
+impl LaxFunctor<O, A, O, A> for LaxTableFunctor {
+    fn map_object(&self, o: &O) -> impl ExactSizeIterator<Item = O> {
+        self.t.obj(*o).clone().into_iter()
+    }
+    fn map_operation(&self, a: &A, source: &[O], target: &[O]) -> LaxOH {
+        lax::OpenHypergraph::from_strict(sv::oh(self.t.op(*a, source, target)))
+    }
+    fn map_arrow(&self, f: &LaxOH) -> LaxOH {
+        lax::functor::dyn_functor::define_map_arrow(self, f)
+    }
+}
+
+#[derive(Clone)]
+pub struct LaxTableOptic {
+    pub t: tables::OpticTable,
+}
+impl lax::optic::Optic<O, A, O, A> for LaxTableOptic {
+    fn fwd_object(&self, o: &O) -> Vec<O> {
+        self.t.fwd.obj(*o).clone()
+    }
+    fn fwd_operation(&self, a: &A, source: &[O], target: &[O]) -> LaxOH {
+        lax::OpenHypergraph::from_strict(sv::oh(self.t.fwd.op(*a, source, target)))
+    }
+    fn rev_object(&self, o: &O) -> Vec<O> {
+        self.t.rev.obj(*o).clone()
+    }
+    fn rev_operation(&self, a: &A, source: &[O], target: &[O]) -> LaxOH {
+        lax::OpenHypergraph::from_strict(sv::oh(self.t.rev.op(*a, source, target)))
+    }
+    fn residual(&self, a: &A) -> Vec<O> {
+        self.t.residual.get(&a.0).cloned().unwrap_or_default()
+    }
+}
+
+fn o_icf(x: &open_hypergraphs::strict::vec::IndexedCoproduct<FiniteFunction>) -> Value {
+    sv::o_icf(x)
+}
+
+pub fn run(op: &str, a: &Value) -> Value {
+    match op {
+        // ============================================================ builder calls (C11)
+        "lax.new_node" => stateful(a, |f| val(nat(f.new_node(int(&a["label"])).0))),
+        "lax.new_edge" => stateful(a, |f| val(nat(f.new_edge(A(int(&a["x"])), (nids(&a["s"]), nids(&a["t"]))).0))),
+        "lax.new_operation" => stateful(a, |f| {
+            let (e, (s, t)) = f.new_operation(A(int(&a["x"])), vec_o(&a["a"]), vec_o(&a["b"]));
+            val(json!({"edge": nat(e.0), "s": out_node_ids(&s), "t": out_node_ids(&t)}))
+        }),
+        "lax.add_edge_source" => stateful(a, |f| val(nat(f.add_edge_source(EdgeId(us(&a["e"])), int(&a["label"])).0))),
+        "lax.add_edge_target" => stateful(a, |f| val(nat(f.add_edge_target(EdgeId(us(&a["e"])), int(&a["label"])).0))),
+        "lax.unify" => stateful(a, |f| {
+            f.unify(NodeId(us(&a["v"])), NodeId(us(&a["w"])));
+            val(json!(0))
+        }),
+        "lax.delete_nodes" => stateful(a, |f| {
+            f.delete_nodes(&nids(&a["ids"]));
+            val(json!(0))
+        }),
+        "lax.h.delete_nodes" => stateful(a, |f| {
+            f.hypergraph.delete_nodes(&nids(&a["ids"]));
+            val(json!(0))
+        }),
+        "lax.h.delete_nodes_witness" => stateful(a, |f| {
+            let w = f.hypergraph.delete_nodes_witness(&nids(&a["ids"]));
+            val(Value::Array(w.into_iter().map(|x| opt(x.map(nat))).collect()))
+        }),
+        "lax.delete_edges" => stateful(a, |f| {
+            f.delete_edges(&eids(&a["ids"]));
+            val(json!(0))
+        }),
+        #[allow(deprecated)]
+        "lax.h.delete_edge" => stateful(a, |f| {
+            f.hypergraph.delete_edge(&eids(&a["ids"]));
+            val(json!(0))
+        }),
+        "lax.map_nodes" => {
+            let tbl = vec_o(&a["tbl"]);
+            let f = lax_in(&a["pre"]);
+            let g = f.map_nodes(|o| tbl[o as usize]);
+            json!({"tag": "val", "val": 0, "post": lax_out(&g)})
+        }
+        "lax.map_edges" => {
+            let tbl = vec_a(&a["tbl"]);
+            let f = lax_in(&a["pre"]);
+            let g = f.map_edges(|x| tbl[x.0 as usize]);
+            json!({"tag": "val", "val": 0, "post": lax_out(&g)})
+        }
+        "lax.with_nodes" => {
+            let newnodes = vec_o(&a["nodes"]);
+            let f = lax_in(&a["pre"]);
+            match f.with_nodes(|_| newnodes) {
+                Some(g) => json!({"tag": "some", "val": lax_out(&g)}),
+                None => none(),
+            }
+        }
+        "lax.with_edges" => {
+            let newedges = vec_a(&a["edges"]);
+            let f = lax_in(&a["pre"]);
+            match f.with_edges(|_| newedges) {
+                Some(g) => json!({"tag": "some", "val": lax_out(&g)}),
+                None => none(),
+            }
+        }
+        // ============================================================ quotient (C09)
+        "lax.quotient" => stateful(a, |f| match f.quotient() {
+            Ok(q) => ok(sv::o_ff(&q)),
+            Err(q) => json!({"tag": "err", "variant": "Err", "val": sv::o_ff(&q)}),
+        }),
+        #[allow(deprecated)]
+        "lax.quotient_witness" => stateful(a, |f| match f.quotient_witness() {
+            Ok(q) => ok(sv::o_ff(&q)),
+            Err(q) => json!({"tag": "err", "variant": "Err", "val": sv::o_ff(&q)}),
+        }),
+        "lax.h.quotient" => stateful(a, |f| match f.hypergraph.quotient() {
+            Ok(q) => ok(sv::o_ff(&q)),
+            Err(q) => json!({"tag": "err", "variant": "Err", "val": sv::o_ff(&q)}),
+        }),
+        "lax.h.coequalizer" => val(sv::o_ff(&lax_in(&a["pre"]).hypergraph.coequalizer())),
+        "lax.is_strict" => val(json!(lax_in(&a["pre"]).hypergraph.is_strict())),
+        // ============================================================ conversions (C10)
+        "lax.from_strict" => val(lax_out(&lax::OpenHypergraph::from_strict(sv::oh(&a["f"])))),
+        "lax.to_strict" => val(sv::o_oh(&lax_in(&a["pre"]).to_strict())),
+        #[allow(deprecated)]
+        "lax.to_open_hypergraph" => val(sv::o_oh(&lax_in(&a["pre"]).to_open_hypergraph())),
+        "lax.h.to_hypergraph" => val(sv::o_hg(&lax_in(&a["pre"]).hypergraph.to_hypergraph())),
+        "lax.roundtrip_strict" => val(sv::o_oh(&lax::OpenHypergraph::from_strict(sv::oh(&a["f"])).to_strict())),
+        "lax.roundtrip_lax" => val(lax_out(&lax::OpenHypergraph::from_strict(lax_in(&a["pre"]).to_strict()))),
+        // ============================================================ categorical operations (C02, C04, C10)
+        "lax.empty" => val(lax_out(&LaxOH::empty())),
+        "lax.tensor" => val(lax_out(&lax_in(&a["f"]).tensor(&lax_in(&a["g"])))),
+        "lax.tensor_bitor" => val(lax_out(&(&lax_in(&a["f"]) | &lax_in(&a["g"])))),
+        "lax.tensor3" => {
+            let (f, g, h) = (lax_in(&a["f"]), lax_in(&a["g"]), lax_in(&a["h"]));
+            let u = LaxOH::empty();
+            val(json!({"lhs": lax_out(&f.tensor(&g).tensor(&h)), "rhs": lax_out(&f.tensor(&g.tensor(&h))),
+                       "ul": lax_out(&u.tensor(&f)), "ur": lax_out(&f.tensor(&u))}))
+        }
+        "lax.lax_compose" => opt(lax_in(&a["f"]).lax_compose(&lax_in(&a["g"])).map(|x| lax_out(&x))),
+        "lax.compose" => opt(Arrow::compose(&lax_in(&a["f"]), &lax_in(&a["g"])).map(|x| lax_out(&x))),
+        "lax.compose_shr" => opt((&lax_in(&a["f"]) >> &lax_in(&a["g"])).map(|x| lax_out(&x))),
+        "lax.identity" => val(lax_out(&LaxOH::identity(vec_o(&a["w"])))),
+        "lax.twist" => val(lax_out(&<LaxOH as SymmetricMonoidal>::twist(vec_o(&a["a"]), vec_o(&a["b"])))),
+        "lax.spider" => opt(LaxOH::spider(ff(&a["s"]), ff(&a["t"]), vec_o(&a["w"])).map(|x| lax_out(&x))),
+        "lax.half_spider" => opt(<LaxOH as Spider<VecKind>>::half_spider(ff(&a["s"]), vec_o(&a["w"])).map(|x| lax_out(&x))),
+        "lax.dagger" => val(lax_out(&lax_in(&a["f"]).dagger())),
+        "lax.singleton" => val(lax_out(&LaxOH::singleton(A(int(&a["x"])), vec_o(&a["a"]), vec_o(&a["b"])))),
+        "lax.source" => val(json!(Arrow::source(&lax_in(&a["f"])))),
+        "lax.target" => val(json!(Arrow::target(&lax_in(&a["f"])))),
+        "lax.tensor_assign" => stateful(a, |f| {
+            f.tensor_assign(lax_in(&a["g"]));
+            val(json!(0))
+        }),
+        "lax.append" => stateful(a, |f| {
+            let (s, t) = f.append(lax_in(&a["g"]));
+            val(json!({"s": out_node_ids(&s), "t": out_node_ids(&t)}))
+        }),
+        "lax.h.coproduct_assign" => stateful(a, |f| {
+            f.hypergraph.coproduct_assign(lax_in(&a["g"]).hypergraph);
+            val(json!(0))
+        }),
+        // ============================================================ serde (C11)
+        "lax.serde_roundtrip" => {
+            let f = lax_in(&a["pre"]);
+            let text = serde_json::to_string(&f).expect("serialize");
+            let as_value: Value = serde_json::from_str(&text).expect("json");
+            let back: LaxOH = serde_json::from_str(&text).expect("deserialize");
+            val(json!({"json": as_value, "back": lax_out(&back)}))
+        }
+        // ============================================================ functors (C12, C13), optics (C14)
+        "laxf.dyn_map_arrow" => {
+            let t = LaxTableFunctor { t: tables::FunctorTable::from_json(&a["F"]) };
+            val(lax_out(&t.map_arrow(&lax_in(&a["f"]))))
+        }
+        "laxf.identity" => {
+            let i = lax::functor::dyn_functor::Identity;
+            val(lax_out(&<_ as LaxFunctor<O, A, O, A>>::map_arrow(&i, &lax_in(&a["f"]))))
+        }
+        "laxf.try_define_map_arrow" => {
+            let t = LaxTableFunctor { t: tables::FunctorTable::from_json(&a["F"]) };
+            opt(lax::functor::try_define_map_arrow(&t, &lax_in(&a["f"])).map(|x| lax_out(&x)))
+        }
+        "laxf.map_arrow_witness" => {
+            let t = LaxTableFunctor { t: tables::FunctorTable::from_json(&a["F"]) };
+            opt(lax::functor::map_arrow_witness(&t, &lax_in(&a["f"])).map(|(x, w)| json!({"out": lax_out(&x), "witness": o_icf(&w)})))
+        }
+        "laxf.optic_map_arrow" => {
+            use lax::optic::Optic;
+            let t = LaxTableOptic { t: tables::OpticTable::from_json(&a["optic"]) };
+            val(lax_out(&t.map_arrow(lax_in(&a["f"]))))
+        }
+        "laxf.optic_map_adapted" => {
+            use lax::optic::Optic;
+            let t = LaxTableOptic { t: tables::OpticTable::from_json(&a["optic"]) };
+            val(lax_out(&t.map_adapted(lax_in(&a["f"]))))
+        }
+        // ============================================================ Var interface, forgetting (C19)
+        "var.script" => crate::var_ops::run_script(a),
+        "var.forget" => val(lax_out(&lax::var::forget::forget(&lax_in(&a["f"])))),
+        "var.forget_monogamous" => val(lax_out(&lax::var::forget::forget_monogamous(&lax_in(&a["f"])))),
+        "var.forget_eval" => {
+            // forget, strictify, evaluate on each input vector
+            let g = lax::var::forget::forget(&lax_in(&a["f"]));
+            let s = g.clone().to_strict();
+            let mut outs = vec![];
+            for inp in arr(&a["inputs"]) {
+                let inputs: Vec<u8> = vec_us(inp).into_iter().map(|x| x as u8).collect();
+                let (r, _) = sv::eval_logged(&s, inputs);
+                outs.push(opt(r.map(|v| json!(v))));
+            }
+            val(json!({"forgot": lax_out(&g), "outs": outs}))
+        }
+        _ => json!({"tag": "unknown_op", "op": op}),
+    }
+}
+
+#[allow(dead_code)]
+fn _unused(_: VecArray<usize>) {}
